@@ -445,9 +445,102 @@ fn r_observe(b: &RLBuilder, r: &RRef) -> Option<String> {
     let m = Bits::from_runs(r.len, &r.runs);
     let runs: Vec<(u128, u128)> = rl.run_iter().map(|(s, l)| (s as u128, l as u128)).collect();
     if runs != m.runs || rl.len() as u128 != r.len || rl.count_ones() as u128 != r.ones() {
-        return Some(format!("converted vector has runs {:?} (len {}), accepted runs (merged) are {:?} (len {})", runs, rl.len(), m.runs, r.len));
+        let show = |v: &Vec<(u128, u128)>| if v.len() > 12 { format!("{} runs starting {:?}", v.len(), &v[..6]) } else { format!("{:?}", v) };
+        return Some(format!("converted vector has runs {} (len {}), accepted runs (merged) are {} (len {})", show(&runs), rl.len(), show(&m.runs), r.len));
+    }
+    // "Builds what was accepted": the converted vector also answers position and rank queries at the edges of the
+    // first and last runs like the accepted runs (the queries use indexes that the run iterator does not).
+    use simple_sds::ops::{PredSucc, Rank, Select};
+    let picked: Vec<&(u128, u128)> = m.runs.iter().take(12).chain(m.runs.iter().rev().take(12)).collect();
+    let mut idx: Vec<u128> = vec![0, r.len.saturating_sub(1), r.len];
+    for &&(s, l) in &picked {
+        idx.extend([s.saturating_sub(1), s, s + l - 1, s + l]);
+    }
+    for k in 0..=16u128 {
+        idx.push(r.len / 16 * k);
+    }
+    idx.sort_unstable();
+    idx.dedup();
+    for &i in &idx {
+        if i > usize::MAX as u128 {
+            continue;
+        }
+        let iu = i as usize;
+        if i < r.len && rl.get(iu) != m.get(i) {
+            return Some(format!("converted vector: get({}) = {}, expected {}", iu, rl.get(iu), m.get(i)));
+        }
+        if rl.rank(iu) as u128 != m.rank(i) {
+            return Some(format!("converted vector: rank({}) = {}, expected {}", iu, rl.rank(iu), m.rank(i)));
+        }
+        let want = m.succ(i).map(|(rk, p)| (rk as usize, p as usize));
+        if rl.successor(iu).next() != want {
+            return Some(format!("converted vector: successor({}) = {:?}, expected {:?}", iu, rl.successor(iu).next(), want));
+        }
+        let want = m.pred(i).map(|(rk, p)| (rk as usize, p as usize));
+        if rl.predecessor(iu).next() != want {
+            return Some(format!("converted vector: predecessor({}) = {:?}, expected {:?}", iu, rl.predecessor(iu).next(), want));
+        }
+    }
+    let ones = r.ones();
+    for rk in [0u128, 1, ones / 2, ones.saturating_sub(1), ones] {
+        if rk <= usize::MAX as u128 && rl.select(rk as usize).map(|p| p as u128) != m.select(rk) {
+            return Some(format!("converted vector: select({}) = {:?}, expected {:?}", rk, rl.select(rk as usize), m.select(rk)));
+        }
     }
     None
+}
+
+/// One long history (640 short runs: about twenty blocks, block starts in several buckets of the sample indexes),
+/// observed at a few points and at the end - the short histories of the search never leave the first block.
+fn r_long(ctx: &mut Ctx) {
+    let acts: Vec<RAct> = {
+        let mut v = Vec::new();
+        let mut at = 0usize;
+        for i in 0..640usize {
+            let (g, l) = (1 + i % 3, 1 + i % 2);
+            v.push(RAct::TrySet(at + g, l));
+            at += g + l;
+        }
+        v.push(RAct::SetLen(at + 9));
+        v
+    };
+    let case = || json!({"Rl": {"acts": acts}});
+    ctx.announce(case);
+    ctx.nontrivial(&"rl-long-history");
+    let mut b = RLBuilder::new();
+    let mut r = RRef::default();
+    for (k, act) in acts.iter().enumerate() {
+        // apply without observing at every step (the conversion is linear in the history)
+        let observe = k % 97 == 0 || k + 2 >= acts.len();
+        let got = guard(|| {
+            match *act {
+                RAct::TrySet(s, l) => {
+                    if b.try_set(s, l).is_err() {
+                        return Some(format!("try_set({}, {}) refused", s, l));
+                    }
+                    r.runs.push((s as u128, l as u128));
+                    r.len = (s + l) as u128;
+                }
+                RAct::SetLen(n) => {
+                    b.set_len(n);
+                    r.len = r.len.max(n as u128);
+                }
+            }
+            if observe { r_observe(&b, &r) } else { None }
+        });
+        ctx.transitions += 1;
+        match got {
+            Ok(None) => ctx.eval(),
+            Ok(Some(msg)) => {
+                ctx.require(|| format!("RLBuilder.{}[long history]", r_name(act)), false, case, || json!({"observed": msg, "step": k}));
+                return;
+            }
+            Err(msg) => {
+                ctx.panic_violation(&format!("RLBuilder.{}[long history]", r_name(act)), &msg, None, case);
+                return;
+            }
+        }
+    }
 }
 
 fn r_apply(b: &mut RLBuilder, r: &mut RRef, act: &RAct) -> Option<String> {
@@ -600,12 +693,16 @@ fn explore(ctx: &mut Ctx) {
         }
     }
     r_bfs(ctx, ctx.tier.pick(5, 7));
+    if ctx.mine_index(7) {
+        r_long(ctx);
+    }
 }
 
 fn replay(ctx: &mut Ctx, v: &Value) {
     let c: Case = serde_json::from_value(v.clone()).expect("replay: not a C16 case");
     match c {
         Case::Sparse { params, acts } => s_replay(ctx, &params, &acts),
+        Case::Rl { acts } if acts.len() > 100 => r_long(ctx),
         Case::Rl { acts } => r_replay(ctx, &acts),
     }
 }
